@@ -4,7 +4,7 @@
  * through the import callback (ly_ctx_set_module_imp_clb) and builds contexts through the public API.
  *
  * Module record (one TAB field each, in the order the context is expected to hold them):
- *      M    := ["+"] NAME "," REV "," IMPL "," GROUPS "," IMPORTS
+ *      M    := ["+"] NAME "," REV "," IMPL "," GROUPS "," IMPORTS ["," SUBG]
  *      NAME := hex     REV := hex | "-"     IMPL := 0 | 1
  *      GROUPS  := G (";" G)*      G := "" | F ("+" F)*      F := hex ":" (0 | 1) [":" hex]
  *                 first group = features of the module itself, following groups = features of its submodules
@@ -12,6 +12,14 @@
  *                 feature of the same (sub)module that this feature depends on (if-feature)
  *      IMPORTS := "" | I ("+" I)*         I := hex ["@" hex] ["^a" | "^d"]   (with / without revision-date;
  *                 ^a: the module also augments the container of the imported module, ^d: it deviates its leaf x)
+ *      SUBG := V (";" INCS)*    V = 0 (YANG 1.0) | 1 (YANG 1.1);  the k-th INCS (k = 0: the module, k >= 1: submodule
+ *                 n-s<k>) lists the submodules that (sub)module k includes: "" | number ("+" number)*.  Without SUBG the
+ *                 module is YANG 1.1 and includes all its submodules, which include nothing.  In YANG 1.0 a submodule
+ *                 may include one the module does not include (libyang injects it into the includes of the module);
+ *                 the feature arrays of the context follow the includes array of the module after that.
+ *                 Every (sub)module defines an identity derived from the identity of its first include, an
+ *                 identityref leaf, and (submodules) an augment of the module's container; the ^a / ^d statement of
+ *                 import number k is placed in (sub)module k mod (number of (sub)modules).
  *      a leading "+" marks a source that is only available to the import callback and is never loaded explicitly
  *      (it may still enter the context through an import).
  *   Building a context from records: every record with IMPL = 1 is loaded in order with ly_ctx_load_module(name, rev,
@@ -32,13 +40,17 @@
  *        entry = m:NAME,REV,NS,FEATURES,DEVIATIONS  or  i:NAME,REV,NS   (read from the re-parsed JSON data), joined by |
  *        fields "P:" idx ":" features before the records: ly_ctx_load_module(record idx, features) on the rebuilding
  *        context BEFORE ly_ctx_new_ylmem is applied to it (an existing, populated context)
- *   ylx <opts> X:<ropts>:<entry>:<osrc>:<rsrc>:<target> [P:idx:features]... M...
+ *        fields "Q:" idx ":" features: lys_set_implemented(record idx, features) on the ORIGINAL context after all loads
+ *        (a feature change after the modules were compiled), also for ylx
+ *   ylx <opts> X:<ropts>:<entry>:<osrc>:<rsrc>:<target> [P:idx:features]... [Q:idx:features]... M...
  *        the round trip in every variant: ropts = options of the rebuilding context; entry = d (ly_ctx_new_yldata on
  *        the tree) | mj | mx (ly_ctx_new_ylmem JSON / XML) | pj | px (ly_ctx_new_ylpath); osrc / rsrc = where the original /
  *        the rebuilding context get module texts: c (import callback) | s (search directory) | b (both); target =
  *        n (*ctx == NULL, needs rsrc = s) | e (an existing context, P operations applied first)
  *        -> `<validation rc> <rebuild rc> # <hex names of implemented modules whose compiled print differs, + joined | ->
- *            <P results> <all records of the original context> <all records of the rebuilt context>`
+ *            <P results> <all records of the original context> <all records of the rebuilt context>
+ *            <description: name,rev,features,submodules of every entry of the data> <the same read from the original
+ *            context with lys_feature_value / includes> <hash of the original> <hash of the rebuilt context>`
  */
 #include "common.h"
 
@@ -88,6 +100,9 @@ struct msrc {
     struct grp g[MAXG];
     int ni;
     struct imp imp[MAXI];
+    int v11;                /* yang-version 1.1 */
+    int ninc[MAXG];         /* includes of (sub)module g */
+    int inc[MAXG][MAXG];
     char *text;
     char *subtext[MAXG];
 };
@@ -216,70 +231,123 @@ tnum(const struct msrc *m)
     return 1 + h % 9000;
 }
 
+/* the statements of (sub)module g: features, identity, data nodes, augments and deviations */
+static void
+gen_body(struct sbuf *b, const struct msrc *m, int g)
+{
+    char self[300];
+
+    if (g) {
+        snprintf(self, sizeof self, "%s-s%d", m->name, g);
+    } else {
+        snprintf(self, sizeof self, "%s", m->name);
+    }
+    for (int f = 0; f < m->g[g].nf; f++) {
+        if (m->g[g].f[f].dep) {
+            sb_fmt(b, " feature %s {if-feature %s;}", m->g[g].f[f].name, m->g[g].f[f].dep);
+        } else {
+            sb_fmt(b, " feature %s;", m->g[g].f[f].name);
+        }
+    }
+    /* identity derived from the identity of the first include (needs the include to resolve) */
+    if (m->ninc[g]) {
+        sb_fmt(b, " identity id-g%d {base id-g%d;}", g, m->inc[g][0]);
+    } else {
+        sb_fmt(b, " identity id-g%d;", g);
+    }
+    if (!g) {
+        sb_fmt(b, " typedef t {type string {length \"0..%u\";}}", tnum(m));
+        /* what an importer can take over: a grouping whose leaves depend on the features of this module and that
+         * wraps the groupings of its own imports (so a module depends on the features of modules it reaches only
+         * through import-only modules), a typedef and an identity derived from those of the first import */
+        sb_fmt(b, " grouping g-%s {leaf gp {type t;}", m->name);
+        for (int f = 0; f < m->g[0].nf; f++) {
+            sb_fmt(b, " leaf gl-%s {if-feature %s; type string;}", m->g[0].f[f].name, m->g[0].f[f].name);
+        }
+        for (int k = 0; k < m->ni; k++) {
+            sb_fmt(b, " container w%d {uses i%d:g-%s;}", k, k, m->imp[k].name);
+        }
+        sb_fmt(b, "}");
+        if (m->ni) {
+            sb_fmt(b, " typedef t2 {type i0:t2;} identity mid {base i0:mid;}");
+        } else {
+            sb_fmt(b, " typedef t2 {type t;} identity mid;");
+        }
+    }
+    sb_fmt(b, " container c-%s {", self);
+    sb_fmt(b, g ? " leaf y {type string;}" : " leaf x {type t;}");
+    sb_fmt(b, " leaf ir {type identityref {base id-g%d;}}", g);
+    for (int f = 0; f < m->g[g].nf; f++) {
+        sb_fmt(b, " leaf l-%s {if-feature %s; type string;}", m->g[g].f[f].name, m->g[g].f[f].name);
+    }
+    if (!g) {
+        for (int k = 0; k < m->ni; k++) {
+            sb_fmt(b, " leaf u%d {type i%d:t;}", k, k);
+        }
+        sb_fmt(b, " leaf v {type t2;} leaf w {type identityref {base mid;}} container own {uses g-%s;}", m->name);
+    }
+    sb_fmt(b, "}");
+    if (g) {
+        /* a submodule augments the container of its module, depending on its first feature */
+        sb_fmt(b, " augment \"/p:c-%s\" {leaf sa-g%d {", m->name, g);
+        if (m->g[g].nf) {
+            sb_fmt(b, "if-feature %s; ", m->g[g].f[0].name);
+        }
+        sb_fmt(b, "type string;}}");
+    }
+    for (int k = 0; k < m->ni; k++) {
+        if ((k % m->ng) != g) {
+            continue;
+        }
+        if (m->imp[k].kind == 'a') {
+            sb_fmt(b, " augment \"/i%d:c-%s\" {leaf aug-%s {type string;}}", k, m->imp[k].name, m->name);
+        } else if (m->imp[k].kind == 'd') {
+            sb_fmt(b, " deviation \"/i%d:c-%s/i%d:x\" {deviate add {units \"u-%s\";}}", k, m->imp[k].name, k, m->name);
+        }
+    }
+}
+
+static void
+gen_imports(struct sbuf *b, const struct msrc *m, int g)
+{
+    for (int k = 0; k < m->ni; k++) {
+        /* the module imports everything, a submodule what its augment / deviation statements need */
+        if (g && (((k % m->ng) != g) || !m->imp[k].kind)) {
+            continue;
+        }
+        sb_fmt(b, " import %s {prefix i%d;", m->imp[k].name, k);
+        if (m->imp[k].rev) {
+            sb_fmt(b, " revision-date %s;", m->imp[k].rev);
+        }
+        sb_fmt(b, "}");
+    }
+}
+
 static void
 gen_text(struct msrc *m)
 {
-    struct sbuf b = {0};
+    for (int g = 0; g < m->ng; g++) {
+        struct sbuf b = {0};
 
-    sb_fmt(&b, "module %s {yang-version 1.1; namespace \"urn:yl:%s\"; prefix p;", m->name, m->name);
-    for (int k = 0; k < m->ni; k++) {
-        sb_fmt(&b, " import %s {prefix i%d;", m->imp[k].name, k);
-        if (m->imp[k].rev) {
-            sb_fmt(&b, " revision-date %s;", m->imp[k].rev);
-        }
-        sb_fmt(&b, "}");
-    }
-    for (int g = 1; g < m->ng; g++) {
-        sb_fmt(&b, " include %s-s%d;", m->name, g);
-    }
-    if (m->rev) {
-        sb_fmt(&b, " revision %s;", m->rev);
-    }
-    for (int f = 0; f < m->g[0].nf; f++) {
-        if (m->g[0].f[f].dep) {
-            sb_fmt(&b, " feature %s {if-feature %s;}", m->g[0].f[f].name, m->g[0].f[f].dep);
+        if (g) {
+            sb_fmt(&b, "submodule %s-s%d {%s belongs-to %s {prefix p;}", m->name, g, m->v11 ? "yang-version 1.1;" : "", m->name);
         } else {
-            sb_fmt(&b, " feature %s;", m->g[0].f[f].name);
+            sb_fmt(&b, "module %s {%s namespace \"urn:yl:%s\"; prefix p;", m->name, m->v11 ? "yang-version 1.1;" : "", m->name);
         }
-    }
-    sb_fmt(&b, " typedef t {type string {length \"0..%u\";}}", tnum(m));
-    sb_fmt(&b, " container c-%s {", m->name);
-    sb_fmt(&b, " leaf x {type t;}");
-    for (int f = 0; f < m->g[0].nf; f++) {
-        sb_fmt(&b, " leaf l-%s {if-feature %s; type string;}", m->g[0].f[f].name, m->g[0].f[f].name);
-    }
-    for (int k = 0; k < m->ni; k++) {
-        sb_fmt(&b, " leaf u%d {type i%d:t;}", k, k);
-    }
-    sb_fmt(&b, "}");
-    for (int k = 0; k < m->ni; k++) {
-        if (m->imp[k].kind == 'a') {
-            sb_fmt(&b, " augment \"/i%d:c-%s\" {leaf aug-%s {type string;}}", k, m->imp[k].name, m->name);
-        } else if (m->imp[k].kind == 'd') {
-            sb_fmt(&b, " deviation \"/i%d:c-%s/i%d:x\" {deviate add {units \"u-%s\";}}", k, m->imp[k].name, k, m->name);
+        gen_imports(&b, m, g);
+        for (int k = 0; k < m->ninc[g]; k++) {
+            sb_fmt(&b, " include %s-s%d;", m->name, m->inc[g][k]);
         }
-    }
-    sb_fmt(&b, "}");
-    m->text = b.s;
-
-    for (int g = 1; g < m->ng; g++) {
-        struct sbuf s = {0};
-
-        sb_fmt(&s, "submodule %s-s%d {yang-version 1.1; belongs-to %s {prefix p;}", m->name, g, m->name);
-        for (int f = 0; f < m->g[g].nf; f++) {
-            if (m->g[g].f[f].dep) {
-                sb_fmt(&s, " feature %s {if-feature %s;}", m->g[g].f[f].name, m->g[g].f[f].dep);
-            } else {
-                sb_fmt(&s, " feature %s;", m->g[g].f[f].name);
-            }
+        if (m->rev) {
+            sb_fmt(&b, " revision %s;", m->rev);
         }
-        sb_fmt(&s, " container c-%s-s%d {", m->name, g);
-        sb_fmt(&s, " leaf y {type string;}");
-        for (int f = 0; f < m->g[g].nf; f++) {
-            sb_fmt(&s, " leaf l-%s {if-feature %s; type string;}", m->g[g].f[f].name, m->g[g].f[f].name);
+        gen_body(&b, m, g);
+        sb_fmt(&b, "}");
+        if (g) {
+            m->subtext[g] = b.s;
+        } else {
+            m->text = b.s;
         }
-        sb_fmt(&s, "}}");
-        m->subtext[g] = s.s;
     }
 }
 
@@ -288,8 +356,8 @@ static int
 src_parse(const char *field)
 {
     struct msrc *m;
-    char *copy, *part[5], *gs[MAXG], *fs[MAXF], *is[MAXI], *kv[3], *hat;
-    int n;
+    char *copy, *part[6], *gs[MAXG], *fs[MAXF], *is[MAXI], *kv[3], *hat, *sg[MAXG + 1], *ns[MAXG];
+    int n, np;
 
     if (NSRC >= MAXM) {
         return 0;
@@ -301,7 +369,8 @@ src_parse(const char *field)
         ++field;
     }
     copy = strdup(field);
-    if (split(copy, ',', part, 5) != 5) {
+    np = split(copy, ',', part, 6);
+    if ((np != 5) && (np != 6)) {
         free(copy);
         return 0;
     }
@@ -340,6 +409,30 @@ src_parse(const char *field)
             n = split(is[k], '@', kv, 2);
             m->imp[k].name = unhex_str(kv[0]);
             m->imp[k].rev = (n == 2) ? unhex_str(kv[1]) : NULL;
+        }
+    }
+    if (np == 6) {
+        int nsg = split(part[5], ';', sg, MAXG + 1);
+
+        m->v11 = atoi(sg[0]);
+        for (int g = 0; (g + 1 < nsg) && (g < m->ng); g++) {
+            if (!sg[g + 1][0]) {
+                continue;
+            }
+            m->ninc[g] = split(sg[g + 1], '+', ns, MAXG);
+            for (int k = 0; k < m->ninc[g]; k++) {
+                m->inc[g][k] = atoi(ns[k]);
+                if ((m->inc[g][k] < 1) || (m->inc[g][k] >= m->ng)) {
+                    free(copy);
+                    return 0;
+                }
+            }
+        }
+    } else {
+        m->v11 = 1;
+        m->ninc[0] = m->ng - 1;
+        for (int g = 1; g < m->ng; g++) {
+            m->inc[0][g - 1] = g;
         }
     }
     free(copy);
@@ -901,12 +994,17 @@ cmd_chg(struct vcase *c, struct sbuf *o)
     ly_ctx_destroy(ctx);
 }
 
-/* fields "X:..." / "P:..." between the options and the records; returns the index of the first record */
+/* "Q:idx:features" fields: feature changes of the ORIGINAL context after all loads */
+static char *QF[16];
+static int NQ;
+
+/* fields "X:..." / "P:..." / "Q:..." between the options and the records; returns the index of the first record */
 static int
 skip_specs(struct vcase *c, int from, char **xspec, char **pf, int *np)
 {
     int i = from;
 
+    NQ = 0;
     *np = 0;
     if (xspec) {
         *xspec = NULL;
@@ -916,6 +1014,8 @@ skip_specs(struct vcase *c, int from, char **xspec, char **pf, int *np)
             *xspec = c->f[i];
         } else if (!strncmp(c->f[i], "P:", 2) && (*np < 16)) {
             pf[(*np)++] = c->f[i];
+        } else if (!strncmp(c->f[i], "Q:", 2) && (NQ < 16)) {
+            QF[NQ++] = c->f[i];
         } else {
             break;
         }
@@ -952,8 +1052,69 @@ apply_preops(struct ly_ctx *ctx, char **pf, int np, struct sbuf *o)
     }
 }
 
+/* Q:idx:features -> lys_set_implemented() (ly_ctx_load_module() when the module is not there) on the original context */
+static void
+apply_postops(struct ly_ctx *ctx, unsigned opts)
+{
+    for (int i = 0; i < NQ; i++) {
+        char *w[3], *store[MAXG * MAXF] = {0}, *copy = strdup(QF[i]);
+
+        if ((split(copy, ':', w, 3) == 3) && (atoi(w[1]) >= 0) && (atoi(w[1]) < NSRC)) {
+            const struct msrc *m = &SRC[atoi(w[1])];
+            const char **fa = feat_spec(w[2], store);
+
+            load_rec(ctx, m, fa);
+            free(fa);
+            for (int k = 0; k < MAXG * MAXF; k++) {
+                free(store[k]);
+            }
+        }
+        free(copy);
+        ly_err_clean(ctx, NULL);
+    }
+    if (NQ && (opts & LY_CTX_EXPLICIT_COMPILE)) {
+        ly_ctx_compile(ctx);
+    }
+}
+
+static int
+cmp_line(const void *a, const void *b)
+{
+    return strcmp(*(char * const *)a, *(char * const *)b);
+}
+
+/* 1 when the two texts have the same multiset of lines */
+static int
+same_lines(char *t1, char *t2)
+{
+    char *t[2] = {t1, t2}, **ln[2];
+    size_t n[2] = {0, 0};
+    int same;
+
+    for (int k = 0; k < 2; k++) {
+        size_t cap = 64;
+
+        ln[k] = malloc(cap * sizeof *ln[k]);
+        for (char *p = strtok(t[k], "\n"); p; p = strtok(NULL, "\n")) {
+            if (n[k] == cap) {
+                cap *= 2;
+                ln[k] = realloc(ln[k], cap * sizeof *ln[k]);
+            }
+            ln[k][n[k]++] = p;
+        }
+        qsort(ln[k], n[k], sizeof *ln[k], cmp_line);
+    }
+    same = (n[0] == n[1]);
+    for (size_t i = 0; same && (i < n[0]); i++) {
+        same = !strcmp(ln[0][i], ln[1][i]);
+    }
+    free(ln[0]);
+    free(ln[1]);
+    return same;
+}
+
 /* hex names (joined by +) of the modules implemented in a whose implemented namesake in b is missing or has another
- * compiled print */
+ * compiled print; a name is followed by ~ when the two prints consist of the same lines in another order */
 static void
 put_compiled_diff(struct sbuf *o, const struct ly_ctx *a, const struct ly_ctx *b)
 {
@@ -972,18 +1133,115 @@ put_compiled_diff(struct sbuf *o, const struct ly_ctx *a, const struct ly_ctx *b
         if (m2 && !lys_print_mem(&p1, m, LYS_OUT_YANG_COMPILED, 0) && !lys_print_mem(&p2, m2, LYS_OUT_YANG_COMPILED, 0)) {
             same = !strcmp(p1, p2);
         }
-        free(p1);
-        free(p2);
+        if (!same && getenv("LYX_DEBUG")) {
+            fprintf(stderr, "COMPILED %s original:\n%s\nrebuilt:\n%s\n", m->name, p1 ? p1 : "(none)", p2 ? p2 : "(none)");
+        }
         if (!same) {
             if (!first) {
                 sb_add(o, "+", 1);
             }
             first = 0;
             sb_hex(o, m->name);
+            if (p1 && p2 && same_lines(p1, p2)) {
+                sb_add(o, "~", 1);
+            }
         }
+        free(p1);
+        free(p2);
     }
     if (first) {
         sb_add(o, "-", 1);
+    }
+}
+
+/* name,rev,features,submodules of every module / import-only-module entry of the first module-set, joined by |;
+ * features joined by +, submodules as name@rev joined by + */
+static void
+put_yl_desc(struct sbuf *o, const struct lyd_node *tree)
+{
+    struct ly_set *set = NULL;
+    int first = 1;
+
+    if (lyd_find_xpath(tree, "/ietf-yang-library:yang-library/module-set[1]/*", &set) || !set) {
+        sb_add(o, "E", 1);
+        return;
+    }
+    for (uint32_t i = 0; i < set->count; i++) {
+        const struct lyd_node *n = set->dnodes[i], *ch;
+        int nsub = 0;
+
+        if (strcmp(n->schema->name, "module") && strcmp(n->schema->name, "import-only-module")) {
+            continue;
+        }
+        if (!first) {
+            sb_add(o, "|", 1);
+        }
+        first = 0;
+        sb_hex(o, child_val(n, "name"));
+        sb_add(o, ",", 1);
+        sb_hex(o, child_val(n, "revision"));
+        sb_add(o, ",", 1);
+        put_leaflist(o, n, "feature");
+        sb_add(o, ",", 1);
+        LY_LIST_FOR(lyd_child(n), ch) {
+            if (!strcmp(ch->schema->name, "submodule")) {
+                if (nsub++) {
+                    sb_add(o, "+", 1);
+                }
+                sb_hex(o, child_val(ch, "name"));
+                sb_add(o, "@", 1);
+                sb_hex(o, child_val(ch, "revision"));
+            }
+        }
+    }
+    ly_set_free(set, NULL);
+    if (first) {
+        sb_add(o, "-", 1);
+    }
+}
+
+/* the same read from the context: enabled features by lys_feature_value() over all features of module and
+ * submodules (implemented modules), all includes with their revisions */
+static void
+put_ctx_truth(struct sbuf *o, const struct ly_ctx *ctx)
+{
+    uint32_t i = 0, fi;
+    const struct lys_module *mod;
+    struct lysp_feature *f;
+    LY_ARRAY_COUNT_TYPE u;
+    int first = 1, n;
+
+    while ((mod = ly_ctx_get_module_iter(ctx, &i))) {
+        if (!first) {
+            sb_add(o, "|", 1);
+        }
+        first = 0;
+        sb_hex(o, mod->name);
+        sb_add(o, ",", 1);
+        sb_hex(o, mod->revision);
+        sb_add(o, ",", 1);
+        n = 0;
+        f = NULL;
+        fi = 0;
+        while (mod->implemented && (f = lysp_feature_next(f, mod->parsed, &fi))) {
+            if (lys_feature_value(mod, f->name) == LY_SUCCESS) {
+                if (n++) {
+                    sb_add(o, "+", 1);
+                }
+                sb_hex(o, f->name);
+            }
+        }
+        sb_add(o, ",", 1);
+        LY_ARRAY_FOR(mod->parsed->includes, u) {
+            const struct lysp_submodule *sm = mod->parsed->includes[u].submodule;
+
+            if (u) {
+                sb_add(o, "+", 1);
+            }
+            sb_hex(o, sm->name);
+            sb_add(o, "@", 1);
+            sb_hex(o, sm->revs ? sm->revs[0].date : NULL);
+        }
     }
 }
 
@@ -1023,6 +1281,7 @@ cmd_ylx(struct vcase *c, struct sbuf *o)
         sb_add(o, "E", 1);
         goto cleanup;
     }
+    apply_postops(a, oopts);
     if (ly_ctx_get_yanglib_data(a, &yl, "%u", ly_ctx_get_modules_hash(a))) {
         sb_add(o, "Eyl", 3);
         goto cleanup;
@@ -1082,7 +1341,11 @@ cmd_ylx(struct vcase *c, struct sbuf *o)
         }
         sb_fmt(o, "- %s ", pre.s);
         put_records_from(o, a, 0);
-        sb_add(o, " -", 2);
+        sb_add(o, " - ", 3);
+        put_yl_desc(o, yl2);
+        sb_add(o, " ", 1);
+        put_ctx_truth(o, a);
+        sb_fmt(o, " %u -", ly_ctx_get_modules_hash(a));
         goto cleanup;
     }
     put_compiled_diff(o, a, b);
@@ -1090,6 +1353,11 @@ cmd_ylx(struct vcase *c, struct sbuf *o)
     put_records_from(o, a, 0);
     sb_add(o, " ", 1);
     put_records_from(o, b, 0);
+    sb_add(o, " ", 1);
+    put_yl_desc(o, yl2);
+    sb_add(o, " ", 1);
+    put_ctx_truth(o, a);
+    sb_fmt(o, " %u %u", ly_ctx_get_modules_hash(a), ly_ctx_get_modules_hash(b));
 
 cleanup:
     free(xcopy);
@@ -1123,6 +1391,7 @@ cmd_ylrt(struct vcase *c, struct sbuf *o)
         sb_add(o, "E", 1);
         goto cleanup;
     }
+    apply_postops(a, opts);
     ha = ly_ctx_get_modules_hash(a);
     if (ly_ctx_get_yanglib_data(a, &yl, "%u", ha)) {
         sb_add(o, "Eyl", 3);
